@@ -126,7 +126,7 @@ func VerifXMLBetween(n int) {
 	verifXMLCheck(buf, total)
 }
 
-var verifXMLProlog = []string{"<?xml version=\"1.0\"?>", "<?xml version=\"1.0\" encoding=\"UTF-8\"?>\n", "<!DOCTYPE a>", "<?xml version='1.0'?>\n<!DOCTYPE a SYSTEM \"a.dtd\">\n", "<!-- c -->\n"}
+var verifXMLProlog = []string{"<!DOCTYPE a SYSTEM \"my  doc.dtd\">", "<!DOCTYPE a [<!ENTITY s \"J  D\"><!ATTLIST a k CDATA 'x\ty'>]>\n", "<?xml version=\"1.0\"?>", "<?xml version=\"1.0\" encoding=\"UTF-8\"?>\n", "<!DOCTYPE a>", "<?xml version='1.0'?>\n<!DOCTYPE a SYSTEM \"a.dtd\">\n", "<!-- c -->\n"}
 
 // VerifXMLProlog: prolog (XML declaration / DOCTYPE / comment) + <a H/> where H is n bytes of attribute text.
 func VerifXMLProlog(n int) {
